@@ -30,11 +30,25 @@ WVLN = (0.15, 0.3, 0.7)
 WC = [(w, c) for w in (0.0, 5.0, -5.0, 12.0) for c in (0.0, 5.0, -5.0, 12.0)]
 
 
+# the thorough tier: denser grids (36 x 53 x 30 angles, 7 x 7 wedge/chi pairs) and the detector round trip on all four magnitude sets
+_Q = (TTH, ETA, OMEGA, WC)
+TTH_T = np.concatenate([[0.05, 0.5, 1.3], np.linspace(2.0, 60.0, 30), [75.0, 89.0, 120.0]])
+ETA_T = np.unique(np.concatenate([np.arange(-180.0, 180.0, 7.5), ETA, [89.99, -89.99, 179.99]]))
+OMEGA_T = np.unique(np.concatenate([OMEGA, np.arange(-170.0, 190.0, 20.0)]))
+WC_T = WC + [(w, c) for w in (0.0, 5.0, -5.0, 12.0, 2.0, -12.0, 0.1) for c in (0.0, 5.0, -5.0, 12.0, 2.0, -12.0, 0.1)
+             if (w, c) not in WC]
+
+
+def grids(tier):
+    return _Q if tier != "thorough" else (TTH_T, ETA_T, OMEGA_T, WC_T)
+
+
 def plan(tier, seed):
-    shards = [("laws", wi, wc) for wi in range(3) for wc in range(len(WC))]
-    shards += [("invalid", wi, wc) for wi in range(3) for wc in range(len(WC))]
+    nwc = len(grids(tier)[3])
+    shards = [("laws", wi, wc, tier) for wi in range(3) for wc in range(nwc)]
+    shards += [("invalid", wi, wc, tier) for wi in range(3) for wc in range(nwc)]
     nd = 16 if tier == "quick" else 64
-    shards += [("detector", c, nd, tier) for c in range(nd)]
+    shards += [("detector", c, nd, tier, mg) for c in range(nd) for mg in ((seed % 4,) if tier == "quick" else (0, 1, 2, 3))]
     shards.append(("callers", tier, seed % 4))
     k = seed % len(shards)
     return shards[k:] + shards[:k]
@@ -62,15 +76,16 @@ def can_diffract(g, wvln, wedge, chi):
 
 
 def _run_laws(desc):
-    _, wi, wci = desc
+    _, wi, wci, tier = desc
     from ImageD11 import transform as tr
     sh = Shard()
     wvln = WVLN[wi]
+    TTH, ETA, OMEGA, WC = grids(tier)
     wedge, chi = WC[wci]
     T, E, Om = np.meshgrid(TTH, ETA, OMEGA, indexing="ij")
     tth, eta, om = T.ravel(), E.ravel(), Om.ravel()
     n = len(tth)
-    case = {"kind": "laws", "wavelength": wvln, "wedge": wedge, "chi": chi}
+    case = {"kind": "laws", "wavelength": wvln, "wedge": wedge, "chi": chi, "tier": tier}
     g = tr.compute_g_vectors(tth, eta, om, wvln, wedge=wedge, chi=chi)
     modg = np.sqrt((g * g).sum(axis=0))
     bragg = 2 * np.sin(np.radians(tth) / 2) / wvln
@@ -92,8 +107,9 @@ def _run_laws(desc):
     # C route: build xyz on a distant flat detector from (tth, eta) and run compute_geometry / compute_gv
     for osign in (1.0, -1.0):
         dist = 1e5
-        r = dist * np.tan(np.radians(tth))
-        xyz = np.ascontiguousarray(np.array([np.full(n, dist), -r * np.sin(np.radians(eta)), r * np.cos(np.radians(eta))]).T)
+        # a point at distance `dist` in the direction of the diffracted ray (valid for back-scattering, tth > 90, as well)
+        st_, ct_ = np.sin(np.radians(tth)), np.cos(np.radians(tth))
+        xyz = np.ascontiguousarray(np.array([dist * ct_, -dist * st_ * np.sin(np.radians(eta)), dist * st_ * np.cos(np.radians(eta))]).T)
         pars = {"y_center": 0., "z_center": 0., "y_size": 1., "z_size": 1., "distance": dist, "wavelength": wvln, "omegasign": osign,
                 "tilt_x": 0., "tilt_y": 0., "tilt_z": 0., "o11": 1, "o12": 0, "o21": 0, "o22": -1, "wedge": wedge, "chi": chi}
         C = tr.Ctransform(pars)
@@ -139,20 +155,25 @@ def _run_laws(desc):
     sh.count("diffracting_cases", int(sure.sum()))
     sh.outcomes.add((wi, wci))
     sh.sample(dict(case, tth=float(tth[777]), eta=float(eta[777]), omega=float(om[777]), g=g[:, 777]), limit=1)
+    sh.counters["max_grid_points_per_configuration"] = max(sh.counters.get("max_grid_points_per_configuration", 0), n)
     return sh
 
 
 def _run_invalid(desc):
     """g-vectors constructed in the blind cone (close to the rotation axis) and beyond the Ewald limit"""
-    _, wi, wci = desc
+    _, wi, wci, tier = desc
     from ImageD11 import transform as tr
     sh = Shard()
     wvln = WVLN[wi]
-    wedge, chi = WC[wci]
-    case = {"kind": "invalid", "wavelength": wvln, "wedge": wedge, "chi": chi}
+    wedge, chi = grids(tier)[3][wci]
+    case = {"kind": "invalid", "wavelength": wvln, "wedge": wedge, "chi": chi, "tier": tier}
     mods = np.array([0.05, 0.3, 0.9, 1.5, 1.99, 2.01, 2.5, 4.0]) / wvln          # |g| in units of 1/lambda
     polar = np.array([0.0, 0.01, 0.5, 2.0, 5.0, 10.0, 20.0, 45.0, 70.0, 90.0, 110.0, 160.0, 175.0, 179.99, 180.0])
     azim = np.array([0.0, 37.0, 90.0, 181.0, 270.0, 333.0])
+    if tier == "thorough":
+        mods = np.unique(np.concatenate([mods * wvln, np.linspace(0.02, 3.0, 40)])) / wvln
+        polar = np.unique(np.concatenate([polar, np.arange(1.0, 180.0, 3.0)]))
+        azim = np.arange(0.0, 360.0, 15.0) + 1.0
     M, P, A = np.meshgrid(mods, polar, azim, indexing="ij")
     m, p, a = M.ravel(), np.radians(P.ravel()), np.radians(A.ravel())
     g = np.array([m * np.sin(p) * np.cos(a), m * np.sin(p) * np.sin(a), m * np.cos(p)])
@@ -194,7 +215,7 @@ def _run_invalid(desc):
 
 
 def _run_detector(desc):
-    _, c, nd, tier = desc
+    _, c, nd, tier, mg = desc
     from ImageD11 import transform as tr
     from vt.props import c01
     sh = Shard()
@@ -203,7 +224,7 @@ def _run_detector(desc):
     om = np.resize(OMEGA, len(tth))
     idx = 0
     seed = int(os.environ.get("VERIF_SEED", "0") or 0)
-    for pars, non in c01.configs(seed % 4):
+    for pars, non in c01.configs(mg):
         idx += 1
         # quick: every 4th configuration of the C01 grid (4096, offset chosen by the seed); thorough: all 16 384
         if idx % nd != c:
@@ -247,8 +268,9 @@ def replay(case):
         r = _run_callers(("callers", "thorough", case["mag"]))
         return (not r.violations), {"violations": r.violations[:3]}
     if case["kind"] in ("laws", "invalid"):
-        wi = WVLN.index(case["wavelength"]); wci = WC.index((case["wedge"], case["chi"]))
-        r = run_shard((case["kind"], wi, wci))
+        tier = case.get("tier", "quick")
+        wi = WVLN.index(case["wavelength"]); wci = grids(tier)[3].index((case["wedge"], case["chi"]))
+        r = run_shard((case["kind"], wi, wci, tier))
         v = r.violations
     else:
         from ImageD11 import transform as tr
